@@ -12,16 +12,17 @@ EXTENDS FlowSem
 (*   sum     lena.math.Sum     last   user element keeping the last value  *)
 (*   store1  lena.flow.StoreFilled(yield_as_a_group=False)                 *)
 (*   cnt     user element counting its fills                               *)
+(*   sumrun  subclass of Sum with a data attribute named run               *)
 (***************************************************************************)
-AccInit(a) == CASE a = "sum" -> [tot |-> 0, c |-> {}]
+AccInit(a) == CASE a \in {"sum", "sumrun"} -> [tot |-> 0, c |-> {}]
                 [] a = "last" -> [has |-> FALSE, prev |-> Val(0, {}, FALSE)]
                 [] a = "store1" -> [vs |-> <<>>]
                 [] a = "cnt" -> [n |-> 0]
-AccFill(a, loc, v) == CASE a = "sum" -> [tot |-> loc.tot + v.d, c |-> v.c]
+AccFill(a, loc, v) == CASE a \in {"sum", "sumrun"} -> [tot |-> loc.tot + v.d, c |-> v.c]
                         [] a = "last" -> [has |-> TRUE, prev |-> v]
                         [] a = "store1" -> [vs |-> Append(loc.vs, v)]
                         [] a = "cnt" -> [n |-> loc.n + 1]
-AccCompute(a, loc) == CASE a = "sum" -> <<SumVal(loc.tot, loc.c)>>
+AccCompute(a, loc) == CASE a \in {"sum", "sumrun"} -> <<SumVal(loc.tot, loc.c)>>
                         [] a = "last" -> IF loc.has THEN <<loc.prev>> ELSE <<>>
                         [] a = "store1" -> loc.vs
                         [] a = "cnt" -> <<Val(loc.n, {}, FALSE)>>
@@ -35,6 +36,8 @@ AccFillAll(a, loc, vs) == IF vs = <<>> THEN loc ELSE AccFillAll(a, AccFill(a, lo
 \* Context-dependent selectors (outside the FlowSem vocabulary): Filter("<key>") / Filter(callable reading the
 \* context) and RunIf("<key>", f) select the values whose context has the key; a bare value has no context.
 \* form ("str" | "fn") only tells the harness how to write the selector.
+\* Variable("x", f, <attr>="2023A"): a Variable that carries a data attribute named like an element method
+VarAttr(a) == [t |-> "map", f |-> "var", attr |-> a]
 CFilter(k, form) == [t |-> "cfilter", k |-> k, form |-> form]
 CRunIf(k, f) == [t |-> "crunif", k |-> k, f |-> f]
 HasKey(k, v) == k \in v.c
